@@ -97,6 +97,9 @@ def P(s): return {"$": "path", "s": s}
 def DATE(y, m, d): return {"$": "date", "v": [y, m, d]}
 def TIME(h, m, s, us=0, tz=None): return {"$": "time", "v": [h, m, s, us], "tz": tz}
 def DT(y, mo, d, h, mi, s, us=0, tz=None): return {"$": "datetime", "v": [y, mo, d, h, mi, s, us], "tz": tz}
+def DTS(y, mo, d, h, mi, s, us=0, tz=None): return {"$": "datetime", "v": [y, mo, d, h, mi, s, us], "tz": tz, "sub": 1}
+class DTSub(datetime.datetime):
+    """a datetime subclass (pendulum / pandas.Timestamp style): orjson hands it to json_default, documented encoding isoformat() (seeded C10-4)"""
 def NEST(kind, depth, leaf=0): return {"$": "nest", "kind": kind, "depth": depth, "leaf": leaf}
 def REP(s, n): return {"$": "rep", "s": s, "n": n}
 def CPRANGE(a, b): return {"$": "cprange", "a": a, "b": b}
@@ -117,7 +120,7 @@ def build(s):
     if k == "path": return pathlib.Path(s["s"])
     if k == "date": return datetime.date(*s["v"])
     if k == "time": return datetime.time(*s["v"], tzinfo=_tz(s.get("tz")))
-    if k == "datetime": return datetime.datetime(*s["v"], tzinfo=_tz(s.get("tz")))
+    if k == "datetime": return (DTSub if s.get("sub") else datetime.datetime)(*s["v"], tzinfo=_tz(s.get("tz")))
     if k == "point": return Point(build(s["x"]), build(s["y"]))
     if k == "wrapper": return Wrapper(build(s["v"]))
     if k == "tag": return Tag(s["n"])
@@ -172,7 +175,7 @@ def expect(v, cfg):
     if isinstance(v, pathlib.Path):
         if cfg == "override": return {"path": os.fspath(v)}
         return os.fspath(v)
-    if t is datetime.datetime:
+    if t is datetime.datetime or t is DTSub:
         return _iso_date(v.year, v.month, v.day) + "T" + _iso_time(v.hour, v.minute, v.second, v.microsecond) + _iso_off(v.tzinfo, v)
     if t is datetime.date: return _iso_date(v.year, v.month, v.day)
     if t is datetime.time:
@@ -622,7 +625,7 @@ def seq(msgs, cfg="default", **kw):
 
 LIGHT = ["rec_b", "rec_t", "bytesio", "stringio"]
 RICH = [P("/a/b"), P(""), P("rel/ü/\U0001f600"), P("/with\nnewline\"q\\\x01"), DATE(1, 1, 1), DATE(9999, 12, 31), DATE(2024, 2, 29), DATE(999, 3, 4),
-        TIME(0, 0, 0), TIME(23, 59, 59, 999999), TIME(1, 2, 3, 5), TIME(12, 0, 0, 100000), DT(2020, 1, 2, 3, 4, 5, 6), DT(1, 1, 1, 0, 0, 0), DT(2020, 1, 2, 3, 4, 5, 0, 0),
+        TIME(0, 0, 0), TIME(23, 59, 59, 999999), TIME(1, 2, 3, 5), TIME(12, 0, 0, 100000), DT(2020, 1, 2, 3, 4, 5, 6), DTS(2024, 1, 2, 3, 4, 5, 678, 0), DTS(2020, 1, 2, 3, 4, 5), DT(1, 1, 1, 0, 0, 0), DT(2020, 1, 2, 3, 4, 5, 0, 0),
         DT(9999, 12, 31, 23, 59, 59, 999999, 330), DT(2000, 6, 15, 12, 0, 0, 0, -480), C(1, 2), C(-0.0, 0.0), C(float("nan"), float("inf")), C(1e308, -5e-324),
         S(), T(), S(1, 2, 3), S("a", "b"), S(None, "x"), S(1, "a"), S(True, "t", None, F(1.5)), T(1, "a", None), S(T(1, 2), T("a")), S(P("/x"), DATE(2020, 1, 1)),
         S(F(float("nan")), "n"), S(C(0, 1), None), S(T(None, "x"), "x", 3), T(S(1, "a"), S())]
